@@ -15,6 +15,7 @@ import (
 	"time"
 
 	"github.com/TheCacophonyProject/go-cptv/cptvframe"
+	"github.com/godbus/dbus"
 
 	"verifkit/ev"
 	"verifkit/vos"
@@ -87,6 +88,8 @@ type c16Obs struct {
 	gen        int
 	conns      []*c16Conn
 	infoCalls  int
+	// test-recording requests that returned without error while one connection was current throughout
+	testrecAccepted int
 	framesSeen []uint32
 }
 
@@ -179,7 +182,11 @@ func c16Body(c c16Case, env *c16Env, obs *c16Obs) func() {
 					for k := 0; k < n; k++ {
 						cn := obs.conns[obs.gen]
 						sn := c16Snap{thread: name, conn: obs.gen, doneAtBegin: cn.served - 1}
-						sn.f, sn.err = newSnapshot(-1)
+						var derr *dbus.Error
+						sn.f, derr = (&service{}).TakeSnapshot(-1)
+						if derr != nil {
+							sn.err = fmt.Errorf("%v", derr.Body)
+						}
 						sn.servedAtEnd, sn.genAtEnd = obs.conns[obs.gen].served, obs.gen
 						if sn.f != nil {
 							for _, row := range sn.f.Pix {
@@ -190,7 +197,13 @@ func c16Body(c c16Case, env *c16Env, obs *c16Obs) func() {
 					}
 				})
 			case "testrec":
-				vsched.Spawn(name, func() { newSnapshotRecording() })
+				vsched.Spawn(name, func() {
+					genAtBegin := obs.gen
+					derr := (&service{}).TakeTestRecording()
+					if derr == nil && genAtBegin == obs.gen {
+						obs.testrecAccepted++
+					}
+				})
 			case "info":
 				vsched.Spawn(name, func() {
 					(&service{}).CameraInfo()
@@ -251,6 +264,11 @@ func c16Check(c c16Case, env *c16Env, e *vsched.Exec, obs *c16Obs) (out []ev.Vio
 	// snapshots are whole and fresh
 	for _, sn := range obs.snaps {
 		if sn.f == nil {
+			// once the first frame of the connection has been read a processor exists, and a request that is
+			// not limited to "newer than frame N" must be given an image
+			if sn.conn == sn.genAtEnd && sn.doneAtBegin >= 1 {
+				add("C16:no-snapshot", fmt.Sprintf("%s got no image (error: %v) although %d frames of the connection had been received", sn.thread, sn.err, sn.doneAtBegin))
+			}
 			continue
 		}
 		if fmt.Sprint(sn.atReturn) != fmt.Sprint(sn.f.Pix) {
@@ -294,6 +312,29 @@ func c16Check(c c16Case, env *c16Env, e *vsched.Exec, obs *c16Obs) (out []ev.Vio
 			add("C16:stale-snapshot", fmt.Sprintf("%s returned frame %d although frame %d had completed processing when the request was made", sn.thread, j, sn.doneAtBegin))
 		case gen < sn.conn && sn.doneAtBegin >= 1:
 			add("C16:stale-snapshot", fmt.Sprintf("%s returned frame %d of the previous connection although %d frames of the current one had been processed", sn.thread, j, sn.doneAtBegin))
+		}
+	}
+	// an accepted test-recording request is acted on: the flag is pending, a test recording is open, or its file exists
+	if c.Reconnect == "" && obs.testrecAccepted > 0 && processor != nil {
+		if !processor.StartSnapshot && !processor.SnapshotRecording && len(listTree(env.outDir)) == 0 {
+			add("C16:test-recording-request-lost", "TakeTestRecording returned without error but no test recording was started or is pending")
+		}
+	}
+	// sequential probes after the run (the scheduler is off): "newer than frame N" requests
+	if c.Reconnect != "truncated" && processor != nil {
+		n := int(processor.CurrentFrame)
+		if f, derr := (&service{}).TakeSnapshot(n); derr == nil || f != nil {
+			add("C16:snapshot-filter", fmt.Sprintf("TakeSnapshot(lastFrame=%d) with %d frames processed returned (%v, %v), expected the 'no new frames yet' error", n, n, f != nil, derr))
+		}
+		if n >= 1 {
+			f, derr := (&service{}).TakeSnapshot(n - 1)
+			last := uint16(100 + c.Frames)
+			if c.Reconnect == "ok" {
+				last = uint16(150 + c.Frames)
+			}
+			if derr != nil || f == nil || f.Pix[0][0] != last || f.Pix[len(f.Pix)-1][len(f.Pix[0])-1] != last {
+				add("C16:snapshot-filter", fmt.Sprintf("TakeSnapshot(lastFrame=%d) with %d frames processed did not return the last frame (error %v)", n-1, n, derr))
+			}
 		}
 	}
 	return
